@@ -55,29 +55,11 @@ class SymCB(flow.DefaultCB):
         self._atoms: dict[int, str] = {}
 
     def norm(self, s: Sym) -> Normalizer:
-        env = dict(s.env)
-
-        def atom_of(n: ast.AST) -> str | None:
-            if id(n) in self._atoms:
-                return self._atoms[id(n)]
-            if not isinstance(n, ast.Name):
-                k = self.track(n)
-                if k is not None and k in env:
-                    return None if False else f'@{k}'
-            return None
-        nz = Normalizer(env, atom_of)
-        # tracked non-Name locations (self._steps, table[key]) are looked up through '@key' atoms
-        return nz
+        atoms = self._atoms
+        return Normalizer(dict(s.env), lambda n: atoms.get(id(n)))
 
     def value(self, s: Sym, e: ast.AST) -> Poly:
-        nz = self.norm(s)
-        p = nz.poly(e)
-        # substitute '@key' atoms by the tracked values
-        env = dict(s.env)
-        for a in list(p.atoms()):
-            if a.startswith('@') and a[1:] in env:
-                p = substitute(p, a, env[a[1:]])
-        return p
+        return self.norm(s).poly(e)
 
     def expr(self, s: Sym, e: ast.AST, st: ast.stmt) -> Sym:
         if s is None or e is None:
